@@ -252,6 +252,11 @@ def decide(prop, tier, seed, t0):
             applicable.append(r)
             if det and not holds:
                 failing.append(r)
+            elif (not det) and prop in ("C03", "C16") and not r.get("agree") and r.get("class") == "tokens" and \
+                    (r.get("real") == "PANIC" or str(r.get("real", "")).startswith(":: core :: compile_error")):
+                # the property promises an expansion for this input (the model has one and the predicate applies to it);
+                # the implementation panicked or reported an error instead
+                failing.append(r)
             if (not det) or (not aeq):
                 tie_broken.append(r)
     extra_evals = 0
